@@ -413,8 +413,8 @@ pub fn twin_call(t: &Tier, st: &Step, nb: u8, s: &mut AnyBv, tw: &mut AnyBv) -> 
 
 pub fn drive_c03(t: &Tier, sink: &mut Sink, stats: &mut Stats) {
     let mut rng = Rng::new(t.seed ^ 0xC03);
-    let histories = t.q(160, 1600);
-    let steps = t.q(12, 30);
+    let histories = t.q(300, 2400);
+    let steps = t.q(16, 30);
     let sample_agreeing = t.q(2, 4);
     for h in 0..histories {
         let kind = ALL_KINDS[h % ALL_KINDS.len()];
